@@ -477,9 +477,34 @@ func (j *judge) classifyStuck(gr *groupRec, expectWaves int, endCycle int64) {
 		allThere := len(atWait) == 0 && len(atEnd) == 0 && len(other) == 0
 		switch {
 		case early && allThere:
-			j.viol("C14|"+j.mode+"|barrier|deadlock-after-early-exit",
-				fmt.Sprintf("group %v: engine idle at cycle %d; waves %v wait at s_barrier forever although every other wavefront of the group (%v) has ended",
-					gr.ID, endCycle, waveIDs(atBarrier, func(s st) int { return s.wave }), ended), wit)
+			// who should have released: the wavefront that arrived last, or the one that ended last?
+			lastArrival, lastExit, nExits := int64(-1), int64(-1), 0
+			for _, s := range atBarrier {
+				lastArrival = max(lastArrival, s.last.Start)
+			}
+			for _, idx := range ended {
+				v := barrierView(gr.Waves[idx])
+				if len(v.bar) < atBarrier[0].bars {
+					nExits++
+					if v.endDone != never {
+						lastExit = max(lastExit, v.endDone)
+					}
+				}
+			}
+			who := "not-released-by-the-last-arriving-wavefront"
+			if lastExit > lastArrival {
+				who = "not-released-by-the-last-ending-wavefront|one-early-exit"
+				if nExits >= 2 {
+					who = "not-released-by-the-last-ending-wavefront|2-or-more-early-exits"
+				}
+			}
+			wit["last_arrival_at_the_barrier"], wit["last_early_exit_completed"], wit["early_exits"] = lastArrival, lastExit, nExits
+			// a clean wait at the barrier is not the state corruption the circumstance stands for
+			defer func(c string) { j.circumstance = c }(j.circumstance)
+			j.circumstance = ""
+			j.viol("C14|"+j.mode+"|barrier|deadlock-after-early-exit|"+who,
+				fmt.Sprintf("group %v: engine idle at cycle %d; waves %v wait at s_barrier forever (last arrival at cycle %d) although every other wavefront of the group (%v) has ended (the last at cycle %d)",
+					gr.ID, endCycle, waveIDs(atBarrier, func(s st) int { return s.wave }), lastArrival, ended, lastExit), wit)
 		case allThere:
 			j.viol("C14|"+j.mode+"|barrier|deadlock-all-arrived",
 				fmt.Sprintf("group %v: engine idle at cycle %d; every unfinished wavefront waits at s_barrier and none proceeds", gr.ID, endCycle), wit)
@@ -516,7 +541,9 @@ func (j *judge) classifyStuck(gr *groupRec, expectWaves int, endCycle int64) {
 // releasedByEndingWaveWithOverflow: did an ending wavefront release a barrier
 // its group was waiting at while more than limit wavefronts of the compute
 // unit were waiting at barriers? Returns the cycle and the number waiting.
-func releasedByEndingWaveWithOverflow(groups []*groupRec, limit int) (bool, int64, int) {
+// needRelease: only count it when a waiting wavefront went on afterwards (a
+// release that never happened is a deadlock, judged by classifyStuck).
+func releasedByEndingWaveWithOverflow(groups []*groupRec, limit int, needRelease bool) (bool, int64, int) {
 	for _, gr := range groups {
 		views := []waveBarriers{}
 		for _, w := range sortedWaves(gr) {
@@ -527,7 +554,7 @@ func releasedByEndingWaveWithOverflow(groups []*groupRec, limit int) (bool, int6
 				continue
 			}
 			g := len(e.bar) + 1
-			ok, waiting := true, 0
+			ok, waiting, released := true, 0, false
 			for ui, u := range views {
 				if ui == ei {
 					continue
@@ -535,12 +562,15 @@ func releasedByEndingWaveWithOverflow(groups []*groupRec, limit int) (bool, int6
 				switch {
 				case len(u.bar) >= g && u.bar[g-1].Start < e.endDone && u.next[g-1] >= e.endDone:
 					waiting++
+					if u.next[g-1] != never {
+						released = true
+					}
 				case len(u.bar) < g && u.endDone <= e.endDone:
 				default:
 					ok = false
 				}
 			}
-			if !ok || waiting == 0 {
+			if !ok || waiting == 0 || (needRelease && !released) {
 				continue
 			}
 			// wavefronts of the whole compute unit waiting at a barrier at that cycle
@@ -585,4 +615,135 @@ func firstDiff(a, b []uint32) int {
 		}
 	}
 	return -1
+}
+
+// ---- early exits and the barrier: in which order did they happen? (counters
+// only; the oracles are R1, the completion rule and the deadlock rule.) An
+// "early exit" is a wavefront that completed s_endpgm having issued fewer
+// s_barrier than some other wavefront of its group; the barrier it skips is
+// generation g. At the cycle t its s_endpgm completed every other wavefront of
+// the group is one of: ended (strictly before t), parked (issued barrier g at
+// least parkMargin cycles before t and nothing after it until t), arriving
+// later (issues barrier g after t), leaving later (never issues barrier g and
+// ends after t), or unclear (within the margin). "After the staying
+// wavefronts parked" = nobody arrives later, nobody unclear, somebody parked.
+// Such an exit "has to release the barrier" when in addition nobody leaves
+// later: every other unfinished wavefront of the group is parked, and the
+// release is the ending wavefront's business.
+const parkMargin = 2
+
+func wavesParkedOnCU(groups []*groupRec, t int64) int {
+	n := 0
+	for _, g2 := range groups {
+		for _, w := range g2.Waves {
+			var last *instRec
+			for _, i := range w.Insts {
+				if i.Start < t {
+					last = i
+				}
+			}
+			if last != nil && last.Class == "barrier" {
+				n++
+			}
+		}
+	}
+	return n
+}
+
+func (j *judge) countExitOrders(groups []*groupRec, expectWaves int) {
+	rec := j.rec
+	for _, gr := range groups {
+		views := make([]waveBarriers, 0, expectWaves)
+		maxGen := 0
+		for idx := 0; idx < expectWaves; idx++ {
+			w := gr.Waves[idx]
+			if w == nil {
+				break
+			}
+			v := barrierView(w)
+			maxGen = max(maxGen, len(v.bar))
+			views = append(views, v)
+		}
+		if len(views) != expectWaves {
+			continue
+		}
+		exits, lateExits, releasing := 0, 0, 0
+		for ei, e := range views {
+			if e.endDone == never || len(e.bar) >= maxGen {
+				continue
+			}
+			exits++
+			t := e.endDone
+			g := len(e.bar) + 1
+			ended, parked, later, leaving, unclear := 0, 0, 0, 0, 0
+			for ui, u := range views {
+				if ui == ei {
+					continue
+				}
+				switch {
+				case len(u.bar) < g && u.endDone < t:
+					ended++
+				case len(u.bar) < g && u.endDone > t:
+					leaving++
+				case len(u.bar) >= g && u.bar[g-1].Start+parkMargin <= t && u.next[g-1] >= t:
+					parked++
+				case len(u.bar) >= g && u.bar[g-1].Start > t:
+					later++
+				default:
+					unclear++
+				}
+			}
+			rec.Count("early_exits", 1)
+			rec.Distinct("early_exit_before_barrier_generation", fmt.Sprint(g))
+			switch {
+			case later > 0 && parked > 0:
+				rec.Count("early_exits_between_arrivals_at_the_barrier", 1)
+			case later > 0:
+				rec.Count("early_exits_before_any_other_wavefront_arrived_at_the_barrier", 1)
+			case unclear == 0 && parked > 0:
+				lateExits++
+				rec.Count("early_exits_after_the_staying_wavefronts_parked", 1)
+				rec.Distinct("late_early_exit_rank", fmt.Sprint(ended+1))
+				if ended >= 1 {
+					rec.Count("early_exits_after_the_staying_wavefronts_parked_2nd_or_later_of_the_group", 1)
+				}
+				if ended >= 2 {
+					rec.Count("early_exits_after_the_staying_wavefronts_parked_3rd_or_later_of_the_group", 1)
+				}
+				if leaving > 0 {
+					break
+				}
+				releasing++
+				rec.Count("early_exits_that_had_to_release_the_barrier", 1)
+				rec.Distinct("releasing_early_exit_group_shape", fmt.Sprintf("W=%d ended=%d parked=%d gen=%d", expectWaves, ended, parked, g))
+				if ended >= 1 {
+					rec.Count("early_exits_that_had_to_release_the_barrier_with_another_wavefront_already_ended", 1)
+				}
+				if ended >= 2 {
+					rec.Count("early_exits_that_had_to_release_the_barrier_with_2_or_more_wavefronts_already_ended", 1)
+				}
+				if g >= 2 {
+					rec.Count("early_exits_that_had_to_release_the_2nd_or_a_later_barrier", 1)
+				}
+				if n := wavesParkedOnCU(groups, t); n > 16 {
+					rec.Count("early_exits_that_had_to_release_the_barrier_with_more_than_16_wavefronts_parked_on_the_cu", 1)
+					if ended >= 1 {
+						rec.Count("early_exits_that_had_to_release_the_barrier_with_another_ended_and_more_than_16_parked_on_the_cu", 1)
+					}
+				}
+			}
+		}
+		if exits >= 2 {
+			rec.Count("work_groups_with_2_or_more_early_exits", 1)
+		}
+		if lateExits >= 2 {
+			rec.Count("work_groups_with_2_or_more_early_exits_after_the_staying_wavefronts_parked", 1)
+		}
+		if lateExits >= 3 {
+			rec.Count("work_groups_with_3_or_more_early_exits_after_the_staying_wavefronts_parked", 1)
+		}
+		if releasing >= 2 {
+			rec.Count("work_groups_with_releases_by_ending_wavefronts_at_2_or_more_barriers", 1)
+		}
+	}
 }
